@@ -144,6 +144,9 @@ inductive FileSpec where
   | text (t : Bytes)
   | absent
   | again
+  /-- a symbolic link to itself: the path exists as a directory entry but cannot be opened or examined (ELOOP — an I/O failure
+      other than "no such file") -/
+  | selfLink
   deriving Inhabited
 
 structure Scenario where
@@ -214,6 +217,7 @@ def showFileSpec : String × FileSpec → String
   | (n, .text t) => hexOfString n ++ "=" ++ hx t
   | (n, .absent) => hexOfString n ++ "=!"
   | (n, .again) => hexOfString n ++ "=+"
+  | (n, .selfLink) => hexOfString n ++ "=@"
 
 def Scenario.line (s : Scenario) : String :=
   tab ["run", s.fam, joinOr ";" (s.files.map showFileSpec), joinOr "," (s.argv.map hexOfString),
@@ -258,6 +262,7 @@ def kWDocMany : FileKind :=
   ⟨"wdocmany", fun i => srcText (s!"module M\n" ++ String.join ((List.range 110).map fun j => s!"/// @foo bar\nstruct WM{i}x{j} \{}\n")),
    some (.parse, fun _ => .lint "MalformedDocComment" false)⟩
 def kEMissing : FileKind := ⟨"emissing", fun _ => .absent, some (.resolve, fun p => .io .read (b p))⟩
+def kELoop : FileKind := ⟨"eloop", fun _ => .selfLink, some (.resolve, fun p => .io .read (b p))⟩
 def kEUtf8 : FileKind :=
   ⟨"eutf8", fun _ => .text (b "module M\n" ++ [0xFF, 0xFE, 0x0A]), some (.resolve, fun p => .io .read (b p))⟩
 def kESyntax : FileKind := ⟨"esyntax", fun _ => srcText "module M\nstruct {\n", some (.parse, fun _ => .error "E002")⟩
@@ -273,7 +278,7 @@ def kERule : FileKind :=
   ⟨"erule", fun i => srcText s!"module M\ncompact struct V{i} \{}\n", some (.visitor, fun _ => .error "E018")⟩
 
 def warnKinds : List FileKind := [kWDep, kWLink, kWDoc, kWAllow]
-def errKinds : List FileKind := [kEMissing, kEUtf8, kESyntax, kEAttr, kEUnres, kECycle, kERedef, kERule]
+def errKinds : List FileKind := [kEMissing, kELoop, kEUtf8, kESyntax, kEAttr, kEUnres, kECycle, kERedef, kERule]
 
 def fileName (i : Nat) : String := s!"f{i}.slice"
 
